@@ -165,3 +165,234 @@ pub fn parse_responses(mut bytes: &[u8], head_only: &[bool]) -> Result<Vec<Parse
     }
     Ok(v)
 }
+
+// ---------------------------------------------------------------- requests
+
+#[derive(Debug, Clone, PartialEq)]
+pub struct RefRequest {
+    pub method: String,
+    pub raw_path: Vec<u8>,
+    /// percent-decoded path (valid UTF-8)
+    pub path: String,
+    pub raw_query: Option<Vec<u8>>,
+    /// decoded query pairs in wire order
+    pub query: Vec<(String, String)>,
+    /// header lines in wire order: (name as written, value with OWS trimmed)
+    pub headers: Vec<(String, String)>,
+    pub body: Vec<u8>,
+    pub head_len: usize,
+    pub consumed: usize,
+}
+impl RefRequest {
+    /// values of all lines with this name (case-insensitive), joined with ", " in wire order
+    pub fn header(&self, name: &str) -> Option<String> {
+        let v: Vec<&str> = self.headers.iter().filter(|(n, _)| n.eq_ignore_ascii_case(name)).map(|(_, v)| v.as_str()).collect();
+        if v.is_empty() {
+            None
+        } else {
+            Some(v.join(", "))
+        }
+    }
+}
+
+#[derive(Debug, Clone, PartialEq)]
+pub enum RefErr {
+    /// structurally broken: must be refused
+    Hard(String),
+    /// outside the stated subset in a way a lenient parser may tolerate (byte-content classes,
+    /// doubled separators, obsolete forms): refusal or faithful acceptance are both fine
+    Soft(String),
+    /// the head is fine but fewer body bytes than announced are present
+    Incomplete { missing: usize, head_len: usize },
+}
+
+pub fn pct_decode_strict(raw: &[u8]) -> Result<Vec<u8>, String> {
+    let mut out = Vec::with_capacity(raw.len());
+    let mut i = 0;
+    while i < raw.len() {
+        if raw[i] == b'%' {
+            if i + 3 > raw.len() {
+                return Err("truncated escape".into());
+            }
+            let h = (raw[i + 1] as char).to_digit(16).ok_or("invalid escape")?;
+            let l = (raw[i + 2] as char).to_digit(16).ok_or("invalid escape")?;
+            out.push((h * 16 + l) as u8);
+            i += 3;
+        } else {
+            out.push(raw[i]);
+            i += 1;
+        }
+    }
+    Ok(out)
+}
+
+/// lenient percent-decoding as browsers and the `percent-encoding` crate do: invalid escapes stay literal
+pub fn pct_decode_lenient(raw: &[u8]) -> Vec<u8> {
+    let mut out = Vec::with_capacity(raw.len());
+    let mut i = 0;
+    while i < raw.len() {
+        if raw[i] == b'%' && i + 3 <= raw.len() {
+            let h = (raw[i + 1] as char).to_digit(16);
+            let l = (raw[i + 2] as char).to_digit(16);
+            if let (Some(h), Some(l)) = (h, l) {
+                out.push((h * 16 + l) as u8);
+                i += 3;
+                continue;
+            }
+        }
+        out.push(raw[i]);
+        i += 1;
+    }
+    out
+}
+
+fn is_pchar_or_slash(b: u8) -> bool {
+    b.is_ascii_alphanumeric() || b"-._~!$&'()*+,;=:@/%".contains(&b)
+}
+fn is_query_char(b: u8) -> bool {
+    is_pchar_or_slash(b) || b == b'?'
+}
+
+pub const METHODS: [&str; 7] = ["GET", "PUT", "POST", "PATCH", "DELETE", "HEAD", "OPTIONS"];
+
+/// Strict parser for exactly the subset the statement names.
+pub fn parse_request(bytes: &[u8]) -> Result<RefRequest, RefErr> {
+    let hard = |s: &str| RefErr::Hard(s.to_string());
+    let soft = |s: &str| RefErr::Soft(s.to_string());
+    let head_end = find(bytes, b"\r\n\r\n").ok_or_else(|| hard("no blank line: the head is truncated"))?;
+    let head = &bytes[..head_end];
+    let mut lines: Vec<&[u8]> = Vec::new();
+    {
+        let mut rest = head;
+        loop {
+            match find(rest, b"\r\n") {
+                Some(i) => {
+                    lines.push(&rest[..i]);
+                    rest = &rest[i + 2..];
+                }
+                None => {
+                    lines.push(rest);
+                    break;
+                }
+            }
+        }
+    }
+    let bare = lines.iter().any(|l| l.contains(&b'\n') || l.contains(&b'\r'));
+    let rl = lines[0];
+    let parts: Vec<&[u8]> = rl.split(|b| *b == b' ').collect();
+    if parts.len() != 3 {
+        return Err(hard("request line does not consist of three space-separated parts"));
+    }
+    let method = std::str::from_utf8(parts[0]).map_err(|_| hard("method is not ASCII"))?;
+    if !METHODS.contains(&method) {
+        return Err(hard("unknown method"));
+    }
+    if parts[2] != b"HTTP/1.1" {
+        return Err(hard("version is not HTTP/1.1"));
+    }
+    let target = parts[1];
+    if target.first() != Some(&b'/') {
+        return Err(hard("target is not in origin form"));
+    }
+    let (raw_path, raw_query) = match target.iter().position(|b| *b == b'?') {
+        Some(i) => (&target[..i], Some(&target[i + 1..])),
+        None => (target, None),
+    };
+    let mut softness: Option<RefErr> = None;
+    if bare {
+        // a doubled or stray CR/LF: obsolete line folding / lenient line ends — byte-content class
+        softness.get_or_insert(soft("bare CR or LF inside the head"));
+    }
+    if !raw_path.iter().all(|b| is_pchar_or_slash(*b)) {
+        softness.get_or_insert(soft("byte outside pchar in the path"));
+    }
+    let path = match pct_decode_strict(raw_path).ok().and_then(|b| String::from_utf8(b).ok()) {
+        Some(p) => p,
+        None => {
+            softness.get_or_insert(soft("path has an invalid escape or is not UTF-8 after decoding"));
+            String::from_utf8_lossy(&pct_decode_lenient(raw_path)).into_owned()
+        }
+    };
+    let mut query = Vec::new();
+    if let Some(q) = raw_query {
+        if !q.iter().all(|b| is_query_char(*b)) {
+            softness.get_or_insert(soft("byte outside the query alphabet"));
+        }
+        if !q.is_empty() {
+            for kv in q.split(|b| *b == b'&') {
+                let Some(eq) = kv.iter().position(|b| *b == b'=') else {
+                    softness.get_or_insert(soft("query part without `=`"));
+                    continue;
+                };
+                if eq == 0 {
+                    softness.get_or_insert(soft("query part with empty key"));
+                    continue;
+                }
+                let dec = |raw: &[u8]| -> Option<String> { pct_decode_strict(raw).ok().and_then(|b| String::from_utf8(b).ok()) };
+                match (dec(&kv[..eq]), dec(&kv[eq + 1..])) {
+                    (Some(k), Some(v)) => query.push((k, v)),
+                    _ => {
+                        softness.get_or_insert(soft("query escape invalid or not UTF-8"));
+                    }
+                }
+            }
+        }
+    }
+    let mut headers = Vec::new();
+    for l in &lines[1..] {
+        let colon = l.iter().position(|b| *b == b':').ok_or_else(|| hard("header line without colon"))?;
+        let (name, rest) = (&l[..colon], &l[colon + 1..]);
+        if name.is_empty() {
+            return Err(hard("empty header name"));
+        }
+        if !name.iter().all(|b| is_tchar(*b)) {
+            softness.get_or_insert(soft("header name is not a token"));
+        }
+        if rest.contains(&0) {
+            softness.get_or_insert(soft("NUL in a header value"));
+        }
+        if !(rest.first() == Some(&b' ') && rest.get(1).map_or(true, |b| *b != b' ' && *b != b'\t') && rest.last().map_or(true, |b| rest.len() == 1 || (*b != b' ' && *b != b'\t'))) {
+            softness.get_or_insert(soft("header line is not of the form `Name: value` (optional whitespace differs)"));
+        }
+        let value = match std::str::from_utf8(rest) {
+            Ok(v) => v.trim_matches(|c| c == ' ' || c == '\t').to_string(),
+            Err(_) => {
+                softness.get_or_insert(soft("header value is not UTF-8"));
+                String::from_utf8_lossy(rest).trim().to_string()
+            }
+        };
+        if value.bytes().any(|b| b < 0x20 && b != b'\t' || b == 0x7f) {
+            softness.get_or_insert(soft("control byte in a header value"));
+        }
+        headers.push((String::from_utf8_lossy(name).into_owned(), value));
+    }
+    let head_len = head_end + 4;
+    let mut r = RefRequest { method: method.to_string(), raw_path: raw_path.to_vec(), path, raw_query: raw_query.map(|q| q.to_vec()), query, headers, body: vec![], head_len, consumed: head_len };
+    if r.headers.iter().any(|(n, _)| n.eq_ignore_ascii_case("Transfer-Encoding")) {
+        return Err(soft("Transfer-Encoding is outside the supported subset"));
+    }
+    let cls: Vec<&String> = r.headers.iter().filter(|(n, _)| n.eq_ignore_ascii_case("Content-Length")).map(|(_, v)| v).collect();
+    let mut n = 0usize;
+    if cls.len() > 1 {
+        return Err(hard("Content-Length repeated"));
+    }
+    if let Some(v) = cls.first() {
+        if v.is_empty() || !v.bytes().all(|b| b.is_ascii_digit()) {
+            return Err(hard("Content-Length is not a number"));
+        }
+        n = v.parse::<usize>().map_err(|_| hard("Content-Length overflows"))?;
+        if n as u64 >= (1u64 << 32) {
+            return Err(hard("Content-Length beyond the payload limit"));
+        }
+    }
+    if let Some(s) = softness {
+        return Err(s);
+    }
+    let avail = bytes.len() - head_len;
+    if avail < n {
+        return Err(RefErr::Incomplete { missing: n - avail, head_len });
+    }
+    r.body = bytes[head_len..head_len + n].to_vec();
+    r.consumed = head_len + n;
+    Ok(r)
+}
